@@ -82,12 +82,14 @@ pub mod primary_writer {
     pub uninterp spec fn pw_ok(record: &Record) -> bool;
     /// token fact: only a call of PrimaryWriter::write establishes it
     pub uninterp spec fn pw_written() -> bool;
+    pub uninterp spec fn pw_flushed() -> bool;
     impl PrimaryWriter {
         //@ sig src/primary_writer.rs impl PrimaryWriter / fn write
         //@   props C02,C13
         //@   req[PrimaryWriter::write.perm] pw_ok(record)
         //@   ens pw_written()
         //@ sig src/primary_writer.rs impl PrimaryWriter / fn flush
+        //@   ens pw_flushed()
     }
     impl super::filter::LogLineWriter for PrimaryWriter {
         #[verifier::external_body]
@@ -102,6 +104,7 @@ pub mod writers {
     pub uninterp spec fn ow_ok(wid: int, record: &Record) -> bool;
     /// token fact: only a call of write on the additional writer with this identity establishes it
     pub uninterp spec fn ow_written(wid: int) -> bool;
+    pub uninterp spec fn ow_flushed(wid: int) -> bool;
     /// SHIM: the methods of `trait LogWriter` that FlexiLogger calls
     pub trait LogWriter: Send + Sync {
         spec fn max_log_level_spec(&self) -> log::LevelFilter;
@@ -112,7 +115,8 @@ pub mod writers {
                 ow_ok(self.wid(), record), //@label LogWriter::write.perm C13
             ensures ow_written(self.wid()),
         ;
-        fn flush(&self) -> std::io::Result<()>;
+        fn flush(&self) -> std::io::Result<()>
+            ensures ow_flushed(self.wid());
         fn max_log_level(&self) -> (r: log::LevelFilter)
             ensures r == self.max_log_level_spec();
     }
@@ -214,6 +218,11 @@ pub mod flexi_logger {
     //@   attr #[verifier::loop_isolation(false)]
     //@   props C19
     //@   req[flush.pre.report] forall|c: ErrorCode| #[trigger] super::util::reportable(c) <==> c is Flush
+    //@   props C04
+    //@   loop 1 iter it
+    //@   loop 1 inv[FlexiLogger::flush.loop.all] forall|w: Box<dyn LogWriter>| self.writers().values().contains(w) ==> #[trigger] it.seq().contains(&w)
+    //@   loop 1 inv[FlexiLogger::flush.loop.done] super::primary_writer::pw_flushed() && forall|j: int| 0 <= j < it.index@ ==> super::writers::ow_flushed((#[trigger] it.seq()[j]).wid())
+    //@   ens[FlexiLogger::flush.post.all] super::primary_writer::pw_flushed() && forall|w: Box<dyn LogWriter>| #[trigger] self.writers().values().contains(w) ==> super::writers::ow_flushed(w.wid())
     }
 }
 }
